@@ -33,6 +33,7 @@ The path summaries are evaluated with the checker's own evaluator of a small
 expression language (fails closed on anything else); Python's eval/exec/compile
 are never applied to repo code.
 """
+import ast as _ast
 import ast
 import copy
 import json
@@ -1279,32 +1280,40 @@ def lookup_by_interpretation(repo, chk, table_name, table, tier):
     def py(x):
         return int(x) if x.denominator == 1 else float(x)
 
-    tr = Translator(repo, hooks={"globals": {table_name: table}, "allow_raise": True, "builtin.isinstance": lambda tr_, a_, k_, n_: False}, max_depth=3)
     n, bad = 0, []
-    for j1 in spins:
-        for j2 in spins:
-            Js = [abs(j1 - j2) + k for k in range(int(j1 + j2 - abs(j1 - j2)) + 1)] + [j1 + j2 + 1]
-            for k1 in range(int(2 * j1) + 1):
-                m1 = -j1 + k1
-                for k2 in range(int(2 * j2) + 1):
-                    m2 = -j2 + k2
-                    for J in Js:
-                        if abs(m1 + m2) > J and J <= j1 + j2:
-                            continue
-                        try:
-                            got = tr.call_fn(fn, [py(j1), py(j2), py(m1), py(m2), py(J), py(m1 + m2)])
-                        except Unmodelled as e:
-                            return "unmodelled: %s" % e
-                        except Raised as e:
-                            got = "raises %s" % e
-                        want = cg_exact(j1, m1, j2, m2, J, m1 + m2)
-                        n += 1
-                        try:
-                            ok = abs(float(got) - want) < 1e-12
-                        except (TypeError, ValueError):
-                            ok = False
-                        if not ok:
-                            bad.append("get_cg_coef(%s, %s, %s, %s, %s, %s) = %s, exact value %.12g" % (py(j1), py(j2), py(m1), py(m2), py(J), py(m1 + m2), got, want))
+    # integer arguments come as Python ints (isinstance(x, int) holds) or as other integer types - numpy integers from
+    # np.arange, say - whose str() is spelt the same but for which it does not: both kinds must find the table
+    for int_kind in ("python int", "numpy integer"):
+      def _isinst(tr_, a_, k_, n_, _kind=int_kind):
+          names_ = {x.id for x in _ast.walk(n_.args[1]) if isinstance(x, _ast.Name)} if len(n_.args) > 1 else set()
+          v_ = a_[0]
+          is_int = isinstance(v_, int) or bool(getattr(v_, "is_Integer", False))
+          return _kind == "python int" and is_int and "int" in names_
+      tr = Translator(repo, hooks={"globals": {table_name: table}, "allow_raise": True, "builtin.isinstance": _isinst}, max_depth=3)
+      for j1 in spins:
+          for j2 in spins:
+              Js = [abs(j1 - j2) + k for k in range(int(j1 + j2 - abs(j1 - j2)) + 1)] + [j1 + j2 + 1]
+              for k1 in range(int(2 * j1) + 1):
+                  m1 = -j1 + k1
+                  for k2 in range(int(2 * j2) + 1):
+                      m2 = -j2 + k2
+                      for J in Js:
+                          if abs(m1 + m2) > J and J <= j1 + j2:
+                              continue
+                          try:
+                              got = tr.call_fn(fn, [py(j1), py(j2), py(m1), py(m2), py(J), py(m1 + m2)])
+                          except Unmodelled as e:
+                              return "unmodelled: %s" % e
+                          except Raised as e:
+                              got = "raises %s" % e
+                          want = cg_exact(j1, m1, j2, m2, J, m1 + m2)
+                          n += 1
+                          try:
+                              ok = abs(float(got) - want) < 1e-12
+                          except (TypeError, ValueError):
+                              ok = False
+                          if not ok:
+                              bad.append("get_cg_coef(%s, %s, %s, %s, %s, %s) [integers as %s] = %s, exact value %.12g" % (py(j1), py(j2), py(m1), py(m2), py(J), py(m1 + m2), int_kind, got, want))
     chk.oblige("E5-lookup-sem", "get_cg_coef interpreted at %d points (stored spins up to %s, both orderings): %d deviations" % (n, jmax, len(bad)), not bad)
     if bad:
         chk.violation("E5-lookup-sem", fn.key, "value", "%d of %d points deviate from the exact coefficient; first: %s" % (len(bad), n, bad[0]), file=CG_REL, line=fn.lineno)
